@@ -40,8 +40,8 @@ SET_PARAMS = ["cls", "var_name", "value", "new_attributes"]
 SERVICES = [["pyscript", "step"], ["pyscript", "svcm"], ["pyscript", "reload"], ["pyscript", "jupyter_kernel_start"]]
 SVCMETHODS = [["pyscript", "svcm"]]
 FUNCTIONS = [["task", "sleep"], ["state", "get"]]          # dotted registered functions (plain ones are never used as heads)
-FINDING_SIGS = ["assign-none-keeps-old-value", "assign-stateval-replaces-attrs", "attr-assign-binds-set-parameter",
-                "del-python-variable-attr"]
+# the one deviation that is still open (C16-F2); C16-F1/F3/F4 were repaired in /repo and are judged like anything else
+FINDING_SIGS = ["assign-stateval-replaces-attrs"]
 
 VALUES = ["on", "off", "", "12", 5, 7, -3, 1.5, True, False, None, [3, "x"], [], {"k": 4}, {"k": [8, 2], "m": None}, "None"]
 ENTS = [["pyscript", "e0"], ["pyscript", "e1"], ["sensor", "e2"], ["light", "e3"], ["pyscript", "step"], ["task", "sleep"]]
@@ -128,16 +128,14 @@ class Gen:
                 self.nsnaps += 1
             return {"k": "get", "parts": parts}
         if k == "store2":
-            a = self.arg(allow_snap=self.allow, allow_none=self.allow or self.pyhead(e))
-            if a == "none" and not self.pyhead(e) and tuple(e) not in self.exists:
-                pass  # None on a missing entity is inside the fragment
+            a = self.arg(allow_snap=self.allow, allow_none=True)
             if not self.pyhead(e):
                 self.exists.add(tuple(e))
             return {"k": "store", "parts": e, "arg": a}
         if k == "store3":
             at = self.attr(wide=False)
-            if self.allow and r.random() < 0.3:
-                at = r.choice(["value", "var_name", "cls"])
+            if r.random() < 0.2:
+                at = r.choice(["value", "var_name", "cls", "new_attributes"])   # names of State.set's parameters
             a = self.arg(allow_snap=False)
             return {"k": "store", "parts": e + [at], "arg": a}
         if k == "set":
@@ -157,19 +155,15 @@ class Gen:
                     "style": r.randrange(3)}
         if k == "setattr":
             at = self.attr(wide=False)
-            if self.allow and r.random() < 0.3:
-                at = "value"
+            if r.random() < 0.2:
+                at = r.choice(["value", "new_attributes", "cls"])
             parts = e + [at]
             if r.random() < 0.06:
                 parts = r.choice([e, e + ["a0", "b"]])
             return {"k": "setattr", "parts": parts, "val": r.choice(VALUES)}
         if k == "del":
-            if self.pyhead(e) and not self.allow:
-                e = self.ents[0]
-                if self.pyhead(e):
-                    return {"k": "exist", "parts": e}
             parts = e + ([self.attr(wide=False)] if r.random() < 0.6 else [])
-            if len(parts) == 2:
+            if len(parts) == 2 and not self.pyhead(e):
                 self.exists.discard(tuple(e))
             return {"k": "del", "parts": parts}
         if k == "delete":
@@ -764,22 +758,14 @@ class Oracle:
 
 
 def category(o, env):
-    """the recorded deviation an operation belongs to (None = inside the fragment)"""
+    """the open deviation an operation belongs to (None = inside the fragment): C16-F2, a StateVal value whose
+    attributes the rules would keep"""
     k = o["k"]
     py = o.get("parts", [""])[0] in env["globals"] + env["locals"]
-    if k == "store" and len(o["parts"]) == 2 and not py:
-        if o["arg"] == "none":
-            return FINDING_SIGS[0]
-        if o["arg"][0] == "snap":
-            return FINDING_SIGS[1]
+    if k == "store" and len(o["parts"]) == 2 and not py and o["arg"] != "none" and o["arg"][0] == "snap":
+        return FINDING_SIGS[0]
     if k == "set" and o["arg"] != "none" and o["arg"][0] == "snap" and o["na"] is None:
-        return FINDING_SIGS[1]
-    if k == "store" and len(o["parts"]) == 3 and not py and o["parts"][2] in SET_PARAMS:
-        return FINDING_SIGS[2]
-    if k == "setattr" and len(o["parts"]) == 3 and o["parts"][2] in SET_PARAMS:
-        return FINDING_SIGS[2]
-    if k == "del" and py:
-        return FINDING_SIGS[3]
+        return FINDING_SIGS[0]
     return None
 
 
